@@ -148,7 +148,7 @@ Example ex_simple : simple [109;97;120;45;97;103;101;61;53;44;32;110;111;45;115;
 Proof. vm_compute. reflexivity. Qed.
 Example ex_roundtrip_hyp :
   match cc_parse ex_known with
-  | Some st => cc_ok st && (lenN (other st) =? 0) && (cmask st =? 518) && (max_age st =? 60)%Z &&
+  | Some st => cc_ok st && (lenN (other st) =? 0) && (cmask st =? 646) && (max_age st =? 60)%Z &&
                (max_stale st =? MAX_STALE_ANY)%Z && negb (lenN (no_cache st) =? 0) &&
                negb (list_eqb (cc_pack st) ex_known)
   | None => false
